@@ -1796,6 +1796,11 @@ impl TypeLayout {
             _ => (),
         }
 
+        // `a ?= e` stores the value of `e`, nil included, in `a`: only an optional target can hold it
+        if matches!(op, Op::Unwrap) && matches!(other, Optional(..)) && !matches!(lhs, Optional(..)) {
+            return None;
+        }
+
         if matches!(op, Eq | Neq) && lhs == other && lhs.supports_equ() {
             return Some(TypeLayout::Native(NativeType::Bool));
         }
